@@ -7,6 +7,7 @@
 
 mod alloc;
 mod canon;
+mod cli;
 mod dispatch;
 mod gs1;
 mod gs2;
@@ -47,6 +48,7 @@ fn entries() -> Vec<(&'static str, EntryFn)> {
     v.extend(games::entries());
     v.extend(dispatch::entries());
     v.extend(idcheck::entries());
+    v.extend(cli::entries());
     v.extend(quake::entries());
     v.extend(real::entries());
     v.extend(unreal2::entries());
